@@ -149,9 +149,13 @@ def gen_case(rng):
         sens = []
         for _ in range(K):
             L = pick_len(rng, maxlen)
-            sens.append({"cls": "Sensor", "pixel": (pix * 0.5).tolist(), "handedness": "right",
+            # rotated and never-rotated sensors of either handedness side by side: what a sensor reports must not
+            # depend on whether some OTHER observer in the call needs a rotation
+            static = bool(rng.random() < 0.4)
+            sens.append({"cls": "Sensor", "pixel": (pix * 0.5).tolist(),
+                         "handedness": str(rng.choice(["right", "left"], p=[0.6, 0.4])),
                          "position": (rng.normal(size=(L, 3)) * 0.5).tolist(),
-                         "orientation": objs.rand_rot(rng, L)})
+                         "orientation": [[0.0, 0.0, 0.0, 1.0]] * L if static else objs.rand_rot(rng, L)})
         case["sensors"] = sens
     else:
         case["observers"] = np.array(pts).tolist()
@@ -265,6 +269,11 @@ def check_case(ctx, case):
         ctx.count("mesh_last_row_alone")
     if "surface" in case["kinds"]:
         ctx.count("surface_rows")
+    if has_s:
+        st = [all(np.allclose(q, [0, 0, 0, 1]) for q in x["orientation"]) for x in case["sensors"]]
+        lh = [x.get("handedness") == "left" for x in case["sensors"]]
+        if any(a and b for a, b in zip(st, lh)):
+            ctx.count("unrotated_left_handed_sensor_" + ("alone_or_with_unrotated" if all(st) else "beside_rotated"))
     ctx.count("batch:" + str(n_rows) if n_rows in NOBS else "batch:other")
     ctx.count("mode:" + case["mode"])
     ctx.evaluated({k: v for k, v in case.items()}, nontrivial=nontriv, n=int(np.prod(want_shape[:-1])))
